@@ -1,4 +1,347 @@
-/- Helper lemmas for the routing-table model. -/
+/-
+Helper lemmas for the closest-node iteration (`Model/Closest.lean`), used by `Props/C08.lean`:
+* closed form of `bucketOrder` (the `ClosestBucketsIter` state machine run to exhaustion),
+  which is a permutation of `range 256` ordered by the relation `Before`;
+* the XOR-metric ordering lemma: buckets visited earlier hold strictly closer nodes.
+-/
+import Mathlib.Data.Nat.Bitwise
 import Discv5Model.Model.KBucketSpec
 namespace Discv5.KB
+
+/-! ### closed form of the bucket order -/
+
+def zin (d i : Nat) : List Nat := (List.range i).reverse.filter (fun j => d.testBit j)
+def zout (d i : Nat) : List Nat :=
+  (List.range' (i + 1) (256 - (i + 1))).filter (fun j => !d.testBit j)
+def ztail (d : Nat) : List Nat := if (d.testBit 0 || d = 0) then zout d 0 else 0 :: zout d 0
+def startIdx (d : Nat) : Nat := if d = 0 then 0 else d.log2
+def closedOrder (d : Nat) : List Nat := startIdx d :: (zin d (startIdx d) ++ ztail d)
+
+theorem find_range'_some (p : Nat → Bool) : ∀ k a j, (List.range' a k).find? p = some j →
+    a ≤ j ∧ j < a + k ∧
+      (List.range' a k).filter p = j :: (List.range' (j + 1) (a + k - (j + 1))).filter p := by
+  intro k
+  induction k with
+  | zero => intro a j h; simp at h
+  | succ k ih =>
+    intro a j h
+    rw [List.range'_succ] at h ⊢
+    by_cases hp : p a = true
+    · rw [List.find?_cons_of_pos hp] at h
+      injection h with h
+      subst h
+      refine ⟨Nat.le_refl _, by omega, ?_⟩
+      rw [List.filter_cons_of_pos hp]
+      have : a + (k + 1) - (a + 1) = k := by omega
+      rw [this]
+    · rw [List.find?_cons_of_neg hp] at h
+      obtain ⟨h1, h2, h3⟩ := ih (a + 1) j h
+      refine ⟨by omega, by omega, ?_⟩
+      rw [List.filter_cons_of_neg hp, h3]
+      have : a + 1 + k - (j + 1) = a + (k + 1) - (j + 1) := by omega
+      rw [this]
+
+theorem find_none_filter (p : α → Bool) (l : List α) (h : l.find? p = none) : l.filter p = [] := by
+  rw [List.find?_eq_none] at h
+  rw [List.filter_eq_nil_iff]
+  exact h
+
+theorem find_revrange_some (p : Nat → Bool) : ∀ i j, (List.range i).reverse.find? p = some j →
+    j < i ∧ (List.range i).reverse.filter p = j :: (List.range j).reverse.filter p := by
+  intro i
+  induction i with
+  | zero => intro j h; simp at h
+  | succ i ih =>
+    intro j h
+    rw [List.range_succ, List.reverse_append] at h ⊢
+    simp only [List.reverse_cons, List.reverse_nil, List.nil_append, List.cons_append] at h ⊢
+    by_cases hp : p i = true
+    · rw [List.find?_cons_of_pos hp] at h
+      injection h with h
+      subst h
+      exact ⟨Nat.lt_succ_self _, by rw [List.filter_cons_of_pos hp]⟩
+    · rw [List.find?_cons_of_neg hp] at h
+      obtain ⟨h1, h2⟩ := ih j h
+      exact ⟨by omega, by rw [List.filter_cons_of_neg hp, h2]⟩
+
+theorem cRun_some (d fuel : Nat) (s s' : CState) (i : Nat) (h : cNext d s = (some i, s')) :
+    cRun d (fuel + 1) s = i :: cRun d fuel s' := by
+  simp only [cRun, h]
+
+theorem cRun_none (d fuel : Nat) (s s' : CState) (h : cNext d s = (none, s')) :
+    cRun d (fuel + 1) s = [] := by
+  simp only [cRun, h]
+
+theorem cRun_zoomOut (d : Nat) : ∀ fuel i, (zout d i).length + 1 ≤ fuel →
+    cRun d fuel (.zoomOut i) = zout d i := by
+  intro fuel
+  induction fuel with
+  | zero => intro i h; omega
+  | succ fuel ih =>
+    intro i h
+    cases hn : nextOut d i with
+    | none =>
+      rw [cRun_none d fuel _ .done (by simp only [cNext, hn])]
+      unfold nextOut at hn
+      simp only [numBuckets, Consts.NUM_BUCKETS] at hn
+      exact (find_none_filter _ _ hn).symm
+    | some j =>
+      rw [cRun_some d fuel _ (.zoomOut j) j (by simp only [cNext, hn])]
+      unfold nextOut at hn
+      simp only [numBuckets, Consts.NUM_BUCKETS] at hn
+      obtain ⟨h1, h2, h3⟩ := find_range'_some _ _ _ _ hn
+      have e : i + 1 + (256 - (i + 1)) = 256 := by omega
+      rw [e] at h3
+      have hz : zout d i = j :: zout d j := h3
+      rw [hz] at h ⊢
+      rw [ih j (by simpa using h)]
+
+theorem cRun_zoomIn (d : Nat) : ∀ fuel i, (zin d i ++ ztail d).length + 1 ≤ fuel →
+    cRun d fuel (.zoomIn i) = zin d i ++ ztail d := by
+  intro fuel
+  induction fuel with
+  | zero => intro i h; omega
+  | succ fuel ih =>
+    intro i h
+    cases hn : nextIn d i with
+    | some j =>
+      rw [cRun_some d fuel _ (.zoomIn j) j (by simp only [cNext, hn])]
+      unfold nextIn at hn
+      obtain ⟨h1, h2⟩ := find_revrange_some _ _ _ hn
+      have hz : zin d i = j :: zin d j := h2
+      rw [hz] at h ⊢
+      rw [ih j (by simpa using h)]
+      rfl
+    | none =>
+      have hz : zin d i = [] := by
+        unfold nextIn at hn
+        exact find_none_filter _ _ hn
+      rw [hz] at h ⊢
+      simp only [List.nil_append] at h ⊢
+      by_cases hc : (d.testBit 0 || decide (d = 0)) = true
+      · have ht : ztail d = zout d 0 := by unfold ztail; rw [if_pos hc]
+        rw [ht] at h ⊢
+        rw [← cRun_zoomOut d (fuel + 1) 0 h]
+        have e : cNext d (.zoomIn i) = cNext d (.zoomOut 0) := by
+          simp only [cNext, hn, if_pos hc]
+        simp only [cRun, e]
+      · have ht : ztail d = 0 :: zout d 0 := by unfold ztail; rw [if_neg hc]
+        rw [ht] at h ⊢
+        rw [cRun_some d fuel _ (.zoomOut 0) 0 (by simp only [cNext, hn, if_neg hc])]
+        rw [cRun_zoomOut d fuel 0 (by simpa using h)]
+
+theorem bucketOrder_closed (d : Nat) (h : (closedOrder d).length ≤ 256) :
+    bucketOrder d = closedOrder d := by
+  unfold bucketOrder cInit
+  simp only [numBuckets, Consts.NUM_BUCKETS]
+  rw [cRun_some _ _ _ (.zoomIn (if d = 0 then 0 else d.log2)) (if d = 0 then 0 else d.log2) rfl]
+  unfold closedOrder at h ⊢
+  unfold startIdx at h ⊢
+  rw [cRun_zoomIn d _ _ (by simp at h ⊢; omega)]
+
+
+/-! ### the closed form is a permutation of `range 256`, ordered by `Before` -/
+
+/-- `i` is visited before `j` for distance `d`: either the decisive bit is `i` (set in `d`, `j`
+below) or it is `j` (clear in `d`, `i` below). -/
+def Before (d i j : Nat) : Prop := (j < i ∧ d.testBit i = true) ∨ (i < j ∧ d.testBit j = false)
+
+theorem mem_zin {d i j : Nat} : j ∈ zin d i ↔ j < i ∧ d.testBit j = true := by
+  simp [zin]
+
+theorem mem_zout {d i j : Nat} : j ∈ zout d i ↔ i < j ∧ j < 256 ∧ d.testBit j = false := by
+  simp only [zout, List.mem_filter, List.mem_range'_1, Bool.not_eq_true']
+  constructor
+  · rintro ⟨⟨h1, h2⟩, h3⟩
+    exact ⟨by omega, by omega, h3⟩
+  · rintro ⟨h1, h2, h3⟩
+    exact ⟨⟨by omega, by omega⟩, h3⟩
+
+theorem mem_ztail {d j : Nat} :
+    j ∈ ztail d ↔ j < 256 ∧ d.testBit j = false ∧ ¬(d = 0 ∧ j = 0) := by
+  unfold ztail
+  by_cases hc : (d.testBit 0 || decide (d = 0)) = true
+  · rw [if_pos hc, mem_zout]
+    simp only [Bool.or_eq_true, decide_eq_true_eq] at hc
+    constructor
+    · rintro ⟨h1, h2, h3⟩
+      exact ⟨h2, h3, by omega⟩
+    · rintro ⟨h1, h2, h3⟩
+      refine ⟨?_, h1, h2⟩
+      rcases Nat.eq_zero_or_pos j with hj | hj
+      · subst hj
+        rcases hc with hc | hc
+        · rw [hc] at h2; cases h2
+        · exact absurd ⟨hc, rfl⟩ h3
+      · exact hj
+  · rw [if_neg hc, List.mem_cons, mem_zout]
+    simp only [Bool.or_eq_true, decide_eq_true_eq, not_or, Bool.not_eq_true] at hc
+    constructor
+    · rintro (h | ⟨h1, h2, h3⟩)
+      · subst h; exact ⟨by omega, hc.1, fun h => hc.2 h.1⟩
+      · exact ⟨h2, h3, by omega⟩
+    · rintro ⟨h1, h2, _⟩
+      rcases Nat.eq_zero_or_pos j with hj | hj
+      · exact Or.inl hj
+      · exact Or.inr ⟨hj, h1, h2⟩
+
+theorem zin_pairwise (d i : Nat) : (zin d i).Pairwise (fun a b => b < a) := by
+  unfold zin
+  apply List.Pairwise.filter
+  rw [List.pairwise_reverse]
+  exact List.pairwise_lt_range
+
+theorem zout_pairwise (d i : Nat) : (zout d i).Pairwise (fun a b => a < b) := by
+  unfold zout
+  apply List.Pairwise.filter
+  exact List.pairwise_lt_range'
+
+theorem ztail_pairwise (d : Nat) : (ztail d).Pairwise (fun a b => a < b) := by
+  unfold ztail
+  split
+  · exact zout_pairwise d 0
+  · rw [List.pairwise_cons]
+    exact ⟨fun j hj => (mem_zout.1 hj).1, zout_pairwise d 0⟩
+
+theorem testBit_lt_256 {d j : Nat} (h : d < 2 ^ 256) (hb : d.testBit j = true) : j < 256 := by
+  apply Decidable.byContradiction
+  intro hj
+  have : d < 2 ^ j := Nat.lt_of_lt_of_le h (Nat.pow_le_pow_right (by omega) (by omega))
+  rw [Nat.testBit_lt_two_pow this] at hb
+  cases hb
+
+theorem testBit_le_log2 {d j : Nat} (hb : d.testBit j = true) : j ≤ d.log2 := by
+  apply Decidable.byContradiction
+  intro hj
+  have hd : d ≠ 0 := by
+    intro h; subst h; simp at hb
+  have : d < 2 ^ j := (Nat.log2_lt hd).1 (by omega)
+  rw [Nat.testBit_lt_two_pow this] at hb
+  cases hb
+
+theorem closedOrder_pairwise (d : Nat) : (closedOrder d).Pairwise (Before d) := by
+  unfold closedOrder
+  rw [List.pairwise_cons, List.pairwise_append]
+  refine ⟨?_, ?_, ?_, ?_⟩
+  · intro j hj
+    rw [List.mem_append, mem_zin, mem_ztail] at hj
+    unfold startIdx at hj ⊢
+    by_cases hd : d = 0
+    · rw [if_pos hd] at hj ⊢
+      rcases hj with ⟨h, _⟩ | ⟨h1, h2, h3⟩
+      · omega
+      · exact Or.inr ⟨by omega, h2⟩
+    · rw [if_neg hd] at hj ⊢
+      rcases hj with ⟨h, _⟩ | ⟨h1, h2, h3⟩
+      · exact Or.inl ⟨h, Nat.testBit_log2 hd⟩
+      · have hs := Nat.testBit_log2 hd
+        have hne : j ≠ d.log2 := by
+          intro e; rw [e, hs] at h2; cases h2
+        rcases Nat.lt_or_gt_of_ne hne with h | h
+        · exact Or.inl ⟨h, hs⟩
+        · exact Or.inr ⟨h, h2⟩
+  · apply (zin_pairwise d _).imp_of_mem
+    intro a b ha _ hab
+    exact Or.inl ⟨hab, (mem_zin.1 ha).2⟩
+  · apply (ztail_pairwise d).imp_of_mem
+    intro a b _ hb hab
+    exact Or.inr ⟨hab, (mem_ztail.1 hb).2.1⟩
+  · intro a ha b hb
+    have ha := (mem_zin.1 ha).2
+    have hb := (mem_ztail.1 hb).2.1
+    have hne : a ≠ b := by
+      intro e; rw [e, hb] at ha; cases ha
+    rcases Nat.lt_or_gt_of_ne hne with h | h
+    · exact Or.inr ⟨h, hb⟩
+    · exact Or.inl ⟨h, ha⟩
+
+theorem Before.ne {d i j : Nat} (h : Before d i j) : i ≠ j := by
+  rcases h with ⟨h, _⟩ | ⟨h, _⟩ <;> omega
+
+theorem closedOrder_nodup (d : Nat) : (closedOrder d).Nodup :=
+  (closedOrder_pairwise d).imp Before.ne
+
+theorem mem_closedOrder {d i : Nat} (h : d < 2 ^ 256) : i ∈ closedOrder d ↔ i < 256 := by
+  unfold closedOrder
+  rw [List.mem_cons, List.mem_append, mem_zin, mem_ztail]
+  unfold startIdx
+  by_cases hd : d = 0
+  · rw [if_pos hd]
+    subst hd
+    simp only [Nat.zero_testBit, true_and]
+    constructor
+    · rintro (h | h | h)
+      · omega
+      · cases h.2
+      · exact h.1
+    · intro hi
+      rcases Nat.eq_zero_or_pos i with h0 | h0
+      · exact Or.inl h0
+      · exact Or.inr (Or.inr ⟨hi, by omega⟩)
+  · rw [if_neg hd]
+    constructor
+    · rintro (h1 | h1 | h1)
+      · rw [h1]; exact (Nat.log2_lt hd).2 h
+      · exact testBit_lt_256 h h1.2
+      · exact h1.1
+    · intro hi
+      cases hb : d.testBit i with
+      | true =>
+        have := testBit_le_log2 hb
+        rcases Nat.lt_or_eq_of_le this with h1 | h1
+        · exact Or.inr (Or.inl ⟨h1, rfl⟩)
+        · exact Or.inl h1
+      | false =>
+        exact Or.inr (Or.inr ⟨hi, rfl, fun h => hd h.1⟩)
+
+theorem closedOrder_perm (d : Nat) (h : d < 2 ^ 256) : (closedOrder d).Perm (List.range 256) := by
+  rw [List.perm_ext_iff_of_nodup (closedOrder_nodup d) List.nodup_range]
+  intro i
+  rw [mem_closedOrder h, List.mem_range]
+
+theorem bucketOrder_eq_closed (d : Nat) (h : d < 2 ^ 256) : bucketOrder d = closedOrder d :=
+  bucketOrder_closed d (Nat.le_of_eq ((closedOrder_perm d h).length_eq.trans List.length_range))
+
+
+/-! ### XOR metric -/
+
+def Msb (x i : Nat) : Prop := x.testBit i = true ∧ x < 2 ^ (i + 1)
+
+theorem Msb.above {x i j : Nat} (h : Msb x i) (hj : i < j) : x.testBit j = false :=
+  Nat.testBit_lt_two_pow (Nat.lt_of_lt_of_le h.2 (Nat.pow_le_pow_right (by omega) (by omega)))
+
+theorem xor_lt_of_before {d i j x y : Nat} (hb : Before d i j) (hx : Msb x i) (hy : Msb y j) :
+    x ^^^ d < y ^^^ d := by
+  rcases hb with ⟨hji, hd⟩ | ⟨hij, hd⟩
+  · apply Nat.lt_of_testBit i
+    · simp [Nat.testBit_xor, hx.1, hd]
+    · simp [Nat.testBit_xor, hy.above hji, hd]
+    · intro k hk
+      simp [Nat.testBit_xor, hx.above hk, hy.above (Nat.lt_trans hji hk)]
+  · apply Nat.lt_of_testBit j
+    · simp [Nat.testBit_xor, hx.above hij, hd]
+    · simp [Nat.testBit_xor, hy.1, hd]
+    · intro k hk
+      simp [Nat.testBit_xor, hy.above hk, hx.above (Nat.lt_trans hij hk)]
+
+theorem msb_of_bucketIndex {l k i : Nat} (h : bucketIndex l k = some i) : Msb (l ^^^ k) i := by
+  unfold bucketIndex at h
+  simp only [] at h
+  by_cases hz : l ^^^ k = 0
+  · rw [if_pos hz] at h; cases h
+  · rw [if_neg hz] at h
+    injection h with h
+    subst h
+    exact ⟨Nat.testBit_log2 hz, Nat.lt_log2_self⟩
+
+theorem xor_xor_cancel (l a t : Nat) : (l ^^^ a) ^^^ (l ^^^ t) = a ^^^ t := by
+  apply Nat.eq_of_testBit_eq
+  intro i
+  simp only [Nat.testBit_xor]
+  cases l.testBit i <;> cases a.testBit i <;> cases t.testBit i <;> rfl
+
+theorem xor_cancel_right {a b t : Nat} (h : a ^^^ t = b ^^^ t) : a = b := by
+  have := congrArg (· ^^^ t) h
+  simpa [Nat.xor_assoc] using this
+
 end Discv5.KB
